@@ -523,16 +523,38 @@ class ExprMixin:
         self.assign(e.target, v, fr, st)
         return v
 
+    def _yield_collect(self, items, st, site):
+        """append to the hidden list of a generator that is read as the sequence of its yields"""
+        acc = st.locals.get("$yield")
+        if acc is None:
+            return False
+        cur = self.res(acc, st)
+        if cur.op == "List":
+            new = self.mk("List", cur.args + tuple(items), None, site)
+        elif cur.op in ("LoopVar", "ListAppend") and len(items) == 1 and self._list_like(cur):
+            new = self.mk("ListAppend", (cur, items[0]), None, site)
+        else:
+            new = self.mk("ListAppend", (cur, self.mk("Tuple", tuple(items), None, site)), "extend", site)
+        st.cur[acc.id] = new
+        return True
+
     def ev_Yield(self, e, fr, st):
-        # only reached when a generator body is analysed on request (Interp.analyse_generators)
         site = self.site_of(e, fr)
         v = self.eval(e.value, fr, st) if e.value is not None else self.const(None)
+        if self._yield_collect([self.freeze(v, st)], st, site):
+            return self.const(None, site)
+        # a generator body analysed on request (Interp.analyse_generators): yields are effects
         self.effect("yield", site, st, fr, node=self.freeze(v, st))
         return self.const(None, site)
 
     def ev_YieldFrom(self, e, fr, st):
         site = self.site_of(e, fr)
         v = self.eval(e.value, fr, st)
+        if "$yield" in st.locals:
+            r_ = self.res(v, st)
+            items = self.known_items(r_)
+            if self._yield_collect(items if items is not None else [self.mk("Starred", (r_,), None, site)], st, site):
+                return self.const(None, site)
         self.effect("yield-from", site, st, fr, node=self.freeze(v, st))
         return self.const(None, site)
 
@@ -725,6 +747,13 @@ class ExprMixin:
         if it.op == "DictItems":
             return self.mk("Tuple", (self.mk("IterKey", (it.args[0],), None, site),
                                      self.mk("IterElem", (it.args[0],), None, site)), None, site)
+        # a generator with one yield per iteration of its loop: its element IS the yielded expression
+        #   for x in gen(ys)   with   def gen(ys): for y in ys: yield f(y)     ==     for y in ys: x = f(y)
+        if it.op == "Loop" and len(it.args) == 3 and it.extra and it.extra.get("generator_of") is not None:
+            inner_it, init, body = it.args
+            if init.op == "List" and not init.args and body.op == "ListAppend" and body.attr is None and \
+                    body.args[0].op == "LoopVar" and body.args[0].attr == it.attr:
+                return body.args[1]
         return self.mk("IterElem", (it,), None, site)
 
     def known_items(self, it: Node, limit=64):
